@@ -30,6 +30,7 @@ type Contract struct {
 	Params     []string
 	Requires   []*Clause
 	Defines    []*Clause // closures: facts that hold of the closure value (self) by definition (uninterpreted attributes of function values)
+	Joins      []*Clause // goroutine bodies: WaitGroups on which this goroutine signals its end exactly once (see joins in ParseContractLines)
 	Relies     []*Clause // goroutine bodies: facts about shared state that every goroutine preserves (assumed at entry and after interference, proved at every exit)
 	Ensures    []*Clause
 	Invariants []*Clause
@@ -158,7 +159,7 @@ var clauseKW = map[string]bool{
 	"requires": true, "ensures": true, "invariant": true, "modifies": true, "decreases": true,
 	"helper": true, "inline": true, "pure": true, "nowf": true, "use": true, "protocol": true,
 	"yields": true, "param": true, "contract": true, "applies": true, "opaque": true, "entry": true, "spec": true,
-	"terminal": true, "allocates": true, "pred": true, "trigger": true, "assumed": true, "derived": true, "partial": true, "stream": true, "resumes": true, "refines": true, "field": true, "implements": true, "tag": true, "ghostset": true, "records": true, "receives": true, "stops": true, "subject": true, "methodvalue": true, "logic": true, "axiom": true, "nilrecv": true, "verify": true, "after": true, "tracks": true, "channel": true, "carries": true, "rely": true, "defines": true, "fuel": true,
+	"terminal": true, "allocates": true, "pred": true, "trigger": true, "assumed": true, "derived": true, "partial": true, "stream": true, "resumes": true, "refines": true, "field": true, "implements": true, "tag": true, "ghostset": true, "records": true, "receives": true, "stops": true, "subject": true, "methodvalue": true, "logic": true, "axiom": true, "nilrecv": true, "verify": true, "after": true, "tracks": true, "channel": true, "carries": true, "rely": true, "joins": true, "closes": true, "defines": true, "fuel": true,
 }
 
 var labelRe = regexp.MustCompile(`^([A-Za-z_][\w']*)\s*(\[[A-Za-z0-9, ]*\])?\s*:`)
@@ -532,6 +533,39 @@ func (cs *ContractSet) ParseContractLines(file string, lines []string, poss []st
 			if cur != nil {
 				if c := addClause("defines", it.rest, it.pos); c != nil {
 					cur.Defines = append(cur.Defines, c)
+				}
+			}
+		case "closes":
+			// closes l [props]: ch — on every return path of this body the channel ch has been closed (a receiver that ranges
+			// over it, or waits for its closing, would otherwise never get on). Spelt out as a postcondition.
+			if cur != nil {
+				if c := addClause("closes", it.rest, it.pos); c != nil {
+					tag := ""
+					if len(c.Props) > 0 {
+						tag = " [" + strings.Join(c.Props, ",") + "]"
+					}
+					if e := addClause("ensures", fmt.Sprintf("closed_%s%s: chanClosed(%s)", c.Label, tag, c.Text), it.pos); e != nil {
+						cur.Ensures = append(cur.Ensures, e)
+					}
+				}
+			}
+		case "joins":
+			// joins l [props]: wg — this goroutine body calls wg.Done() exactly once on every path. Spelt out as a precondition
+			// (the spawner has announced it with Add and not yet used that announcement: checked at the go statement, which
+			// then counts the goroutine as spawned) and a postcondition (Done was called once more than at entry).
+			if cur != nil {
+				if c := addClause("joins", it.rest, it.pos); c != nil {
+					cur.Joins = append(cur.Joins, c)
+					tag := ""
+					if len(c.Props) > 0 {
+						tag = " [" + strings.Join(c.Props, ",") + "]"
+					}
+					if r := addClause("requires", fmt.Sprintf("slot_%s%s: (%s) != nil && (%s).spawned < (%s).added", c.Label, tag, c.Text, c.Text, c.Text), it.pos); r != nil {
+						cur.Requires = append(cur.Requires, r)
+					}
+					if e := addClause("ensures", fmt.Sprintf("joined_%s%s: (%s).done == old((%s).done) + 1", c.Label, tag, c.Text, c.Text), it.pos); e != nil {
+						cur.Ensures = append(cur.Ensures, e)
+					}
 				}
 			}
 		case "rely":
